@@ -240,8 +240,16 @@ func dialRoute(
 	dialCtx, cancel := context.WithTimeout(ctx, dialTimeout)
 	defer cancel()
 
+	// A backend address may omit the port: dial the default Minecraft port then.
+	dialAddr := backendAddr
+	if addr, parseErr := netutil.Parse(backendAddr, "tcp"); parseErr == nil {
+		if _, port := netutil.HostPort(addr); port == 0 {
+			dialAddr = net.JoinHostPort(addr.String(), "25565")
+		}
+	}
+
 	var dialer net.Dialer
-	dst, err = dialer.DialContext(dialCtx, "tcp", backendAddr)
+	dst, err = dialer.DialContext(dialCtx, "tcp", dialAddr)
 	if err != nil {
 		v := 0
 		if dialCtx.Err() != nil {
